@@ -35,13 +35,16 @@ LEVEL_TEXT = (
     "class per behaviour signature, every 16th integer for its siblings), a stratified integer sample otherwise, 3,000 (200,000; 600 (40,000) for classes sharing code and parameters with an earlier one) random floats (uniform "
     "and log-uniform), and for sampled decode-image points x: x, nextafter(x, +-inf), the midpoint to the next image point and its two float "
     "neighbours. Out of range: nextafter(bound) and fractions of a step beyond each finite bound, one step, 1.5, 2, 10 steps, bound+-1, x2, +-2^31, "
-    "+-2^63, +-(2^64+1), +-1e300, +-inf, +-10^400 and random distances. Sampled, hence exploration."
+    "+-2^63, +-(2^64+1), +-1e300, +-inf, +-10^400, +-10^4300, +-10^5000, +-10^6000 (ints beyond CPython's decimal conversion limit) and random distances. Sampled, hence exploration."
 )
 LEVEL_NOTE = (
     "Trusted: CPython int/float/Fraction/struct. Judged: in-range => to_knx returns (any exception is a violation), payload is a DPTArray of the declared "
     "length with octets 0..255, from_knx accepts it, no other decodable value lies between the result and the input; out-of-range => ConversionError "
     "(acceptance or any other exception is a violation). A value less than one step outside a bound that is truncated onto the bound is reported under "
-    "its own mechanism (…-fraction-beyond-declared-bound-accepted). Not judged: NaN, non-numeric input, bool. The `resolution` attribute is never used."
+    "its own mechanism (…-fraction-beyond-declared-bound-accepted). Not judged: NaN, non-numeric input, bool. The `resolution` attribute is never used. "
+    "A child interpreter started with `python -O` (assert statements compiled away) repeats a fixed out-of-range set (bound+-1, +-2, +-10, +-73, +-1000, x2, "
+    "+-2^31, +-2^63, +-(2^64+1), +-10^400) for every numeric class; its verdicts are folded in with the mechanism suffix -under-python-O (replay of those "
+    "witnesses runs in the normal interpreter and will not reproduce an assert-only defect)."
 )
 SHARDS = {"quick": 1, "thorough": 16}
 TIMEOUT = {"quick": 300, "thorough": 3000}
@@ -185,10 +188,21 @@ def _valid_payload(cls, payload):
 
 
 def _vrepr(v):
-    return repr(v) if not (isinstance(v, int) and abs(v) > 10**30) else f"int:{v}"
+    # huge ints are written in hex: decimal conversion of > 4300 digits raises ValueError in CPython
+    return repr(v) if not (isinstance(v, int) and abs(v) > 10**30) else f"inthex:{hex(v)}"
+
+
+def _srepr(obj, limit=200):
+    """repr() that cannot fail (an exception carrying a 5000-digit int cannot be rendered)."""
+    try:
+        return repr(obj)[:limit]
+    except BaseException as exc:  # noqa: BLE001
+        return f"<unprintable {type(obj).__name__}: {type(exc).__name__}>"
 
 
 def _parse(text):
+    if text.startswith("inthex:"):
+        return int(text[7:], 16)
     if text.startswith("int:"):
         return int(text[4:])
     try:
@@ -221,12 +235,12 @@ def judge_in_range(ctx, m, v, tag=""):
                 how = "declares-infinite-range-but-rejects-beyond-finite-limit"
         elif v == m.lo or v == m.hi:
             how = "in-range-rejected-at-declared-bound"
-        ctx.violation(f"{own}-{how}", _witness(cls, v, exception=repr(exc)[:200], measured_limit=repr(m.limit)),
+        ctx.violation(f"{own}-{how}", _witness(cls, v, exception=_srepr(exc), measured_limit=repr(m.limit)),
                       f"{cls.__name__}.to_knx({_vrepr(v)[:60]}) raised ConversionError although {cls.value_min} <= value <= {cls.value_max}"[:300])
         ctx.count("in_range_rejected")
         return
     except BaseException as exc:  # noqa: BLE001
-        ctx.violation(f"{own}-in-range-raises-{type(exc).__name__}", _witness(cls, v, exception=repr(exc)[:200]),
+        ctx.violation(f"{own}-in-range-raises-{type(exc).__name__}", _witness(cls, v, exception=_srepr(exc)),
                       f"{cls.__name__}.to_knx({_vrepr(v)[:60]}) raised {type(exc).__name__} for a value inside the declared range"[:300])
         ctx.count("in_range_crashed")
         return
@@ -239,7 +253,7 @@ def judge_in_range(ctx, m, v, tag=""):
         how = "in-range-value-encodes-to-payload-own-decoder-rejects"
         if m.image and (v > m.image[-1] or v < m.image[0]):
             how = "value-beyond-largest-decodable-encodes-to-payload-own-decoder-rejects"
-        ctx.violation(f"{own}-{how}", _witness(cls, v, payload=G.describe(payload), exception=repr(r)[:200]),
+        ctx.violation(f"{own}-{how}", _witness(cls, v, payload=G.describe(payload), exception=_srepr(r)),
                       f"{cls.__name__}.to_knx({_vrepr(v)[:60]}) = {payload!r}, which {cls.__name__}.from_knx rejects ({type(r).__name__})"[:300])
         ctx.count("in_range_undecodable")
         return
@@ -250,7 +264,7 @@ def judge_in_range(ctx, m, v, tag=""):
         # (an infinite declared bound must come back as itself, which is the r == v case above)
         below, above = m.neighbours(r, payload) if _finite(r) else (None, None)
         ctx.violation(f"{own}-error-not-less-than-one-step",
-                      _witness(cls, v, payload=G.describe(payload), decoded=repr(r), image_below=repr(below), image_above=repr(above)),
+                      _witness(cls, v, payload=G.describe(payload), decoded=_srepr(r), image_below=repr(below), image_above=repr(above)),
                       f"{cls.__name__}: {_vrepr(v)[:60]} encodes to {payload!r} = {r!r}; the decode image has {above if (_finite(r) and r < v) else below!r} "
                       f"between/at the input, i.e. the error is one step or more"[:400])
     else:
@@ -268,7 +282,7 @@ def judge_out_of_range(ctx, m, v, fractional, side):
         ctx.count("out_of_range_rejected")
         return
     except BaseException as exc:  # noqa: BLE001
-        ctx.violation(f"{own}-out-of-range-raises-{type(exc).__name__}", _witness(cls, v, exception=repr(exc)[:200]),
+        ctx.violation(f"{own}-out-of-range-raises-{type(exc).__name__}", _witness(cls, v, exception=_srepr(exc)),
                       f"{cls.__name__}.to_knx({_vrepr(v)[:60]}) raised {type(exc).__name__} instead of ConversionError (declared range {cls.value_min}..{cls.value_max})"[:300])
         ctx.count("out_of_range_crashed")
         return
@@ -287,7 +301,7 @@ def judge_out_of_range(ctx, m, v, fractional, side):
         how = f"out-of-range-accepted-with-invalid-payload-{where}"
     else:
         how = f"out-of-range-accepted-payload-own-decoder-rejects-{where}"
-    ctx.violation(f"{own}-{how}", _witness(cls, v, payload=G.describe(payload), decoded=repr(r), fractional=fractional),
+    ctx.violation(f"{own}-{how}", _witness(cls, v, payload=G.describe(payload), decoded=_srepr(r), fractional=fractional),
                   f"{cls.__name__}.to_knx({_vrepr(v)[:60]}) accepted ({payload!r} = {r!r}) although the declared range is {cls.value_min}..{cls.value_max}"[:300])
 
 
@@ -399,6 +413,7 @@ def _out_of_range_values(ctx, m):
             cands.append(int(x) if x.denominator == 1 else float(x))
         cands += [bound + sign, bound + sign * 0.5, bound * 2, bound * 10, bound + sign * 2**31, bound + sign * 2**32,
                   sign * 2**63, sign * (2**63 - 1), sign * (2**64 + 1), sign * 1e300, sign * math.inf, sign * 10**400,
+                  sign * 10**4300, sign * 10**5000, sign * 10**6000, sign * (10**4299 + 7),
                   sign * 255, sign * 256, sign * 65535, sign * 65536, sign * 2**31, sign * 2**32, float(sign * 2**31)]
         for _ in range(ctx.scale(60, 1500)):
             d = g * 2 ** rng.uniform(0, 40)
@@ -426,13 +441,82 @@ def _bucket(v):
     return ("f", 0 if v == 0 else math.frexp(v)[1] // 4, v < 0, v == int(v) if abs(v) < 1e300 else True)
 
 
+_O_CHILD = r"""
+import json, math, sys
+sys.path.insert(0, sys.argv[1])
+from xknx.dpt.dpt import DPTBase, DPTNumeric
+from xknx.exceptions import ConversionError
+assert_active = False
+try:
+    assert False
+except AssertionError:
+    assert_active = True
+out = {"assert_active": assert_active, "optimize": sys.flags.optimize, "cases": []}
+seen = set()
+for cls in DPTBase.dpt_class_tree():
+    if not issubclass(cls, DPTNumeric) or cls in seen:
+        continue
+    seen.add(cls)
+    for bound, sign in ((cls.value_max, 1), (cls.value_min, -1)):
+        if not math.isfinite(bound):
+            continue
+        for v in (bound + sign, bound + 2 * sign, bound + 10 * sign, bound + 73 * sign, bound + 1000 * sign, bound * 2 + sign,
+                  bound + sign * 2**31, sign * 2**63, sign * (2**64 + 1), sign * 200, sign * 256, sign * 65536, sign * 10**400):
+            if (v > bound) if sign > 0 else (v < bound):
+                try:
+                    p = cls.to_knx(v)
+                    res = "accepted:" + repr(p)
+                except ConversionError:
+                    res = "ConversionError"
+                except BaseException as exc:
+                    res = "raises:" + type(exc).__name__
+                out["cases"].append([cls.__name__, hex(v) if isinstance(v, int) else repr(v), res])
+print(json.dumps(out))
+"""
+
+
+def _python_o_pass(ctx):
+    """Out-of-range part once more in a child interpreter started with -O (assert statements compiled away)."""
+    import json
+    import os
+    import subprocess
+    import sys
+
+    src = os.environ.get("XKNX_SRC", "/repo")
+    try:
+        proc = subprocess.run([sys.executable, "-O", "-c", _O_CHILD, src], capture_output=True, text=True, timeout=120, check=False)
+        data = json.loads(proc.stdout)
+    except BaseException as exc:  # noqa: BLE001
+        ctx.inconclusive(f"python -O child failed: {type(exc).__name__}")
+        return
+    if data.get("assert_active") or not data.get("optimize"):
+        ctx.inconclusive("python -O child did not run optimised")
+        return
+    owners = {c.__name__: _own(c) for c in G.concrete_dpt_classes()}
+    for name, value, res in data["cases"]:
+        ctx.ev()
+        if res == "ConversionError":
+            ctx.count("python_O_out_of_range_rejected")
+            continue
+        own = owners.get(name, name)
+        how = "out-of-range-accepted" if res.startswith("accepted:") else f"out-of-range-raises-{res.split(':', 1)[1]}"
+        ctx.count("python_O_out_of_range_not_rejected")
+        ctx.violation(
+            f"{own}-{how}-under-python-O",
+            {"cls": name, "value": "inthex:" + value if value.startswith(("0x", "-0x")) else value, "value_type": "int" if "0x" in value else "float",
+             "result": res[:120], "interpreter": "python -O"},
+            f"under python -O {name}.to_knx({value[:40]}) -> {res[:80]} instead of ConversionError"[:300],
+        )
+    ctx.distinct(("python-O", len(data["cases"]) > 0))
+
+
 def run(ctx):
     ctx.rule = (
         "per DPTNumeric class: in-range values (bounds, integers of the range, random floats, floats hugging decode-image points and midpoints) judged "
         "accepted/type/length/decodable/within one measured step; out-of-range values (fractions of a step .. 10^400 beyond each finite bound) judged "
         "ConversionError; distinct = (class, in/out, magnitude bucket, int/float)"
     )
-    ctx.require("in_range_accepted", "in_range_exact", "in_range_within_one_step", "out_of_range_rejected", "classes_with_enumerated_image", "classes_with_walked_neighbours")
+    ctx.require("in_range_accepted", "in_range_exact", "in_range_within_one_step", "out_of_range_rejected", "classes_with_enumerated_image", "classes_with_walked_neighbours", "python_O_out_of_range_rejected")
     classes = [c for c in G.concrete_dpt_classes() if issubclass(c, DPTNumeric)]
     ctx.extra["numeric_classes"] = len(classes)
     if len(classes) < 100:
@@ -470,6 +554,8 @@ def run(ctx):
             ctx.sample({"cls": cls.__name__, "declared": [repr(m.lo), repr(m.hi)],
                         "image_points": None if m.image is None else len(m.image),
                         "image_min_max": None if not m.image else [repr(m.image[0]), repr(m.image[-1])]})
+    if ctx.shard == 0:
+        _python_o_pass(ctx)
     if affected:
         ctx.extra["classes_per_mechanism"] = {k: sorted(v) for k, v in sorted(affected.items())}
 
